@@ -528,7 +528,11 @@ def main_check(prop, tier, base_seed, budget, max_runs, workers, verbose=False):
     if harness_errors:
         for h in harness_errors[:3]:
             print("HARNESS-ERROR:", h[:3000])
-        if exit_code == 0:
+        # a run the harness could not judge is not evidence either way; the
+        # check is only declared unusable when that is more than an isolated
+        # accident (or when a violation could not be reproduced)
+        fatal = [h for h in harness_errors if "did not reproduce" in h or "HARNESS-TIMEOUT" in h or "worker died" in h]
+        if exit_code == 0 and (fatal or len(harness_errors) > max(1, n_runs // 200)):
             exit_code = 2
     if n_runs == 0 and exit_code == 0:
         print("HARNESS-ERROR: no run completed")
